@@ -185,7 +185,12 @@ Case gen_c02(uint64_t seed, int tier, bool quiesce)
   gen_sched_cfg(c, r);
   c.cfg["unbounded"] = 1;
   int64_t init = r.pick<int64_t>({64, 128, 256, 1024});
-  int64_t maxc = init * r.pick<int64_t>({1, 2, 4, 16});
+  // maxima that are and are not power-of-two multiples of the initial capacity
+  int64_t maxc = r.chance(2, 3) ? init * r.pick<int64_t>({1, 2, 4, 16}) : r.pick<int64_t>({init * 3, init * 6, init * 2 + 100, init * 5 / 2, 1000, 3000});
+  if (maxc < init)
+  {
+    maxc = init;
+  }
   c.cfg["cap"] = init;
   c.cfg["max"] = maxc;
   int nops = static_cast<int>(r.range(quiesce ? 10 : 30, tier ? 400 : 250));
